@@ -324,12 +324,19 @@ class Parser:
             self.statement = None
 
     def parse_statement(self) -> None:
+        self.syntax_error = False
         try:
             _parse_result = self.yacc.parse(self.statement, lexer=self.lexer)
         except SimpleDDLParserException:
             # a symbol unknown to the lexer makes the statement unparseable: like a
             # syntax error it is skipped in silent mode and raised otherwise
             if not self.silent:
+                raise
+            _parse_result = None
+        except Exception:
+            # after a syntax error was skipped in silent mode the grammar actions work on
+            # what is left of the statement and can fail: the statement stays skipped
+            if not self.syntax_error:
                 raise
             _parse_result = None
         if _parse_result:
